@@ -62,6 +62,8 @@ CONSTANTS
  MaxVouchers = %d
  MaxBounces = %d
  OldEnds = %s
+ MaxSendFails = %d
+ MaxSkip = 12
  MaxLen = %d
  DumpAtEnd = %s
 %s
@@ -88,8 +90,11 @@ def sys_model(ctx):
     # process bounces: one bounce of either node + one application restart (the superseded request ends late at the other side, or silently)
     combos = [c + (0,) for c in combos] + ([("push", "none", "FALSE", 0, 1, 0, '{"cancelled","silent"}', 0, 1), ("pull", "l2", "TRUE", 0, 1, 0, '{"cancelled","silent"}', 0, 1)] if ctx.quick() else
                                            [(d, l, f, 0, 1, 0, ALL_OLD, 0, 1) for d in ("push", "pull") for l in ("none", "l2") for f in ("FALSE", "TRUE")])
-    for d, l, f, np, nr, ncl, olds, nv, nb in combos:
-        cfg = stages.write_cfg(ctx, "sys-%s-%s-%s-%d-%d-%d-%d-%d.cfg" % (d, l, f, np, nr, ncl, nv, nb), SYS_CFG % (d, 4, l, f, np, nr, ncl, nv, nb, olds, 80, "FALSE", "INVARIANTS C01_Delivered C03_OnlyBoth C19_CrossLogs\nVIEW View\nCONSTRAINT Constr"))
+    # failing sends: one SendMessage of either node fails (the message is not delivered, the manager sees the error); one restart may heal
+    combos = [c + (0,) for c in combos] + ([("push", "none", "TRUE", 0, 1, 0, "{}", 0, 0, 1), ("pull", "l2", "FALSE", 0, 1, 0, "{}", 0, 0, 1)] if ctx.quick() else
+                                           [(d, l, f, 0, 1, 0, '{"error"}', 0, 0, 1) for d in ("push", "pull") for l in ("none", "l2") for f in ("FALSE", "TRUE")])
+    for d, l, f, np, nr, ncl, olds, nv, nb, nsf in combos:
+        cfg = stages.write_cfg(ctx, "sys-%s-%s-%s-%d-%d-%d-%d-%d-%d.cfg" % (d, l, f, np, nr, ncl, nv, nb, nsf), SYS_CFG % (d, 4, l, f, np, nr, ncl, nv, nb, olds, nsf, 80, "FALSE", "INVARIANTS C01_Delivered C03_OnlyBoth C19_CrossLogs\nVIEW View\nCONSTRAINT Constr"))
         res = ctx.tlc("Sys", cfg, timeout=1800, heap="8g")
         if res.violated:
             raise vlib.Inconclusive("Sys model violates %s (%s %s %s pauses=%d restarts=%d closes=%d old=%s): model-level counterexample, not a verdict\n%s" % (res.violated, d, l, f, np, nr, ncl, olds, res.out[-2500:]))
@@ -107,7 +112,7 @@ def sys_replay(ctx, prefixes=None, n_quick=25, n_thorough=120):
     if ctx.quick():
         combos = combos[ctx.seed % 2::2]
     for d, l, f in combos:
-        cfg = stages.write_cfg(ctx, "sys-sim-%s-%s-%s.cfg" % (d, l, f), SYS_CFG % (d, 4, l, f, 1, 1, 1 if k % 2 else 0, 1, 1 if k % 3 == 0 else 0, '{"cancelled","error","silent"}', 110, "TRUE", ""))
+        cfg = stages.write_cfg(ctx, "sys-sim-%s-%s-%s.cfg" % (d, l, f), SYS_CFG % (d, 4, l, f, 1, 1, 1 if k % 2 else 0, 1, 1 if k % 3 == 0 else 0, '{"cancelled","error","silent"}', 1 if k % 2 == 1 else 0, 110, "TRUE", ""))
         res = ctx.tlc("Sys", cfg, workers=1, simulate="num=%d" % n_per, depth=120, seed=ctx.seed * 31 + k, timeout=900, heap="6g")
         k += 1
         if res.timeout or "Error:" in res.out:
